@@ -16,6 +16,7 @@ NLVERIF_VMD_DIR) and always kills it by pid / process group.
 
 Stdlib only.  Nothing here decides a verdict; the checks do.
 """
+import ctypes
 import errno
 import os
 import resource
@@ -25,6 +26,11 @@ import struct
 import subprocess
 import threading
 import time
+
+try:
+    _LIBC = ctypes.CDLL(None, use_errno=True)
+except OSError:
+    _LIBC = None
 
 VERSION = 1
 LOAD_EXEC, PING, STATUS, SHUTDOWN = 0x01, 0x02, 0x03, 0x04
@@ -811,11 +817,16 @@ class Daemon:
         lf = open(self.log, "ab")
         self.log_start = lf.tell()                 # this instance's part of the (appended) stderr file starts here
         try:
-            pre = None
-            if self.nofile:
-                n = int(self.nofile)
+            n = int(self.nofile) if self.nofile else 0
 
-                def pre():
+            def pre():
+                # the daemon must not outlive a check process that is killed outright (no finally blocks run then):
+                # PR_SET_PDEATHSIG = 1 -> SIGKILL when the starting thread of the parent goes away
+                try:
+                    _LIBC.prctl(1, signal.SIGKILL, 0, 0, 0)
+                except Exception:
+                    pass
+                if n:
                     resource.setrlimit(resource.RLIMIT_NOFILE, (n, n))
             self.proc = subprocess.Popen(self.prefix + [self.binary] + self.args, env=self.env(), stdin=subprocess.DEVNULL,
                                          stdout=lf, stderr=lf, start_new_session=True, cwd=self.vmd_dir, preexec_fn=pre)
@@ -823,6 +834,14 @@ class Daemon:
             lf.close()
         self.pids.add(self.proc.pid)
         self.starts += 1
+        # dead-man's switch: a tiny shell blocked on a pipe only this process holds; if the check process is killed
+        # outright (no finally blocks run) the pipe closes and the shell kills the daemon's process group
+        try:
+            self._watch = subprocess.Popen(["/bin/sh", "-c", "read x; kill -9 -%d 2>/dev/null; kill -9 %d 2>/dev/null" % (self.proc.pid, self.proc.pid)],
+                                           stdin=subprocess.PIPE, stdout=subprocess.DEVNULL, stderr=subprocess.DEVNULL,
+                                           start_new_session=True)
+        except OSError:
+            self._watch = None
         deadline = time.monotonic() + wait
         while time.monotonic() < deadline:
             if self.proc.poll() is not None:
@@ -870,6 +889,20 @@ class Daemon:
         except subprocess.TimeoutExpired:
             return False
 
+    def _drop_watch(self):
+        w = getattr(self, "_watch", None)
+        self._watch = None
+        if w is not None:
+            try:
+                w.kill()                           # first kill the switch, then let go of its pipe
+                w.wait(5)
+            except (OSError, subprocess.TimeoutExpired):
+                pass
+            try:
+                w.stdin.close()
+            except OSError:
+                pass
+
     def stop(self, grace=3.0):
         """SIGTERM (clean shutdown path, flushes sanitizer logs), then SIGKILL the process group."""
         victims = set()
@@ -904,6 +937,7 @@ class Daemon:
             except subprocess.TimeoutExpired:
                 pass
             self.proc = None
+        self._drop_watch()
         # wait until nothing of the daemon's process group is left (forked co-process launchers included)
         deadline = time.monotonic() + 10
         while time.monotonic() < deadline and (any(pid_alive(p) for p in victims) or any(_group_alive(p) for p in victims)):
